@@ -242,9 +242,9 @@ def run_node(pid, tier, seed):
     wd = vlib.workdir(pid)
     # the corpus of targeted schedules runs first, then the random drivers
     if tier == "quick":
-        plan = [("scenarios", []), ("cluster", [seed, 8, 250]), ("node1", [seed, 16, 40])]
+        plan = [("scenarios", []), ("cluster", [seed, 8, 250]), ("node1", [seed, 16, 40]), ("leader1", [seed, 10, 120])]
     else:
-        plan = [("scenarios", []), ("cluster", [seed, 160, 400]), ("node1", [seed, 300, 60])]
+        plan = [("scenarios", []), ("cluster", [seed, 160, 400]), ("node1", [seed, 300, 60]), ("leader1", [seed, 200, 200])]
     metas, broken, viols = {}, None, []
     for drv, args in plan:
         rc, out = vlib.vh(["raft", drv] + (args + [wd] if drv != "scenarios" else [wd, seed]), timeout=3000)
@@ -303,7 +303,8 @@ def run_node(pid, tier, seed):
     cov = {"evaluations": total, "distinct_nontrivial": states,
            "rule": "events executed on real *Raft values by the deterministic simulator (cluster driver: 1-5 nodes, elections, replication with "
                    "probe/pipeline discipline, loss/duplication/delay, membership changes, transfers, snapshots, crashes; node1 driver: one node "
-                   "under adversarial requests with any coordinates); each event is compared from the implementation's own pre-state with the "
+                   "under adversarial requests with any coordinates; leader1 driver: one real leader whose followers are played by the harness: "
+                   "any legal answer, any match index, step-downs, transfers that fail, snapshots in between); each event is compared from the implementation's own pre-state with the "
                    "model: reply, task replies, messages, full post-state. Monitors run on the implementation after every event. "
                    "distinct_nontrivial = distinct pre-states (full node dumps)",
            "samples": samples[:4], "distribution": dist, "traces_validated_against_impl": total}
